@@ -58,12 +58,16 @@ def call(fn, *a, **k):
     return core.guarded(fn, *a, **k)
 
 
-def record(cs, emd, cvl, sel):
+def record(cs, emd, cvl, sel, vectors=None):
+    """vectors: (subset_vect, chain_vect) taken from a live Cycles container instead of being recomputed"""
     cv = np.array(cvl, dtype=int)
     K = len(sel)
     N = len(cv)
-    sv = call(emd.cycles.get_subset_vector, np.array(sel))
-    chv = call(emd.cycles.get_chain_vector, sv) if not isinstance(sv, str) else 'raise'
+    if vectors is not None:
+        sv, chv = vectors
+    else:
+        sv = call(emd.cycles.get_subset_vector, np.array(sel))
+        chv = call(emd.cycles.get_chain_vector, sv) if not isinstance(sv, str) else 'raise'
     r = {'cv': cvl, 'sel': [int(x) for x in sel]}
     if isinstance(sv, str) or isinstance(chv, str):
         r.update(subset_vect=[-99], chain_vect=[-99])
@@ -104,6 +108,39 @@ def gen(args):
     out = []
     for cvl, sel in args:
         out.append(record(cs, emd, cvl, sel))
+    return out
+
+
+def gen_container(args):
+    """Selection histories on live Cycles containers: after every pick_cycle_subset the container's own subset / chain vectors
+    must be the ones the specification derives from the set of matching cycles (a stale vector breaks every map built on it)."""
+    seed, count = args
+    emd = core.import_emd()
+    from emd import _cycles_support as cs
+    from .container_check import PHASE
+    from .cycles_check import table
+    rng = np.random.RandomState(seed)
+    val, edge = table(1)
+    out = []
+    conds = [('duration', '>', 3), ('duration', '<', 4), ('start_sample', '>', 5), ('duration', '>', 100), ('start_sample', '<', 9), ('is_good', '==', 1)]
+    for _ in range(count):
+        fam = int(rng.randint(1, 4))
+        C = emd.cycles.Cycles(val[PHASE[fam]], use_cache=bool(rng.randint(2)))
+        C.compute_cycle_timings()
+        for step in range(3):
+            name, op, lit = conds[rng.randint(len(conds))]
+            try:
+                C.pick_cycle_subset(['%s%s%d' % (name, op, lit)])
+            except Exception as e:
+                pass          # the maps are still required to be coherent with whatever state the container is left in
+            m = np.asarray(C.metrics[name], float)
+            sel = {'>': m > lit, '<': m < lit, '==': m == lit}[op]
+            if C.subset_vect is None or C.chain_vect is None:
+                continue
+            r = record(cs, emd, [int(v) for v in C.cycle_vect[:, 0]] if C.cycle_vect.ndim == 2 else [int(v) for v in C.cycle_vect],
+                       [int(b) for b in sel], vectors=(np.asarray(C.subset_vect), np.asarray(C.chain_vect)))
+            r['container'] = {'family': fam, 'step': step, 'cond': '%s%s%d' % (name, op, lit)}
+            out.append(r)
     return out
 
 
@@ -164,6 +201,11 @@ def run():
         nr = ctx.pick(32, 320)
         rr = [r for rs in pool.imap_unordered(gen_random, [(ctx.seed * 100 + i, nr // 16) for i in range(16)]) for r in rs]
     bad += core.validate_records(ctx, 'CycleMapsRec', rr, name='CycleMapsRec-random', chunk=40)
+    import multiprocessing as mp2
+    with mp2.Pool(core.NCPU) as pool2:
+        cr = [r for rs in pool2.imap_unordered(gen_container, [(ctx.seed * 100 + i, ctx.pick(20, 200)) for i in range(16)]) for r in rs]
+    bad += core.validate_records(ctx, 'CycleMapsRec', cr, name='CycleMapsRec-container')
+    ctx.leg('container', selection_histories=len(cr) // 3, records=len(cr))
     ex = [r for r in gen([([-1, 0, 0, 1, -1, 2, 3], (1, 1, 0, 1))])]
     ctx.sample({k: ex[0][k] for k in ('cv', 'sel', 'subset_vect', 'chain_vect', 's2ch', 'ch2c', 'pch2s')})
     ctx.cov['exhaustive'] = True
